@@ -116,7 +116,7 @@ class C05(Prop):
             "non-trivial = container with >= 2 members, or a string needing an escape, or a non-integer number; distinct by tree hash")
     ASSUMPTIONS = ["only the C locale exists in this sandbox: the decimal-point substitution code is exercised with '.' only",
                    "Python's json (strict=True, constants rejected) and the recogniser are the independent strict parsers"]
-    REQUIRED_CLASSES = ["long_string>=1000", "container>=2", "escape_needed", "non_integer_number", "non_finite_number", "int_range_integer", "control_char", "non_bmp", "depth>=17"]
+    REQUIRED_CLASSES = ["long_string>=1000", "ownership_flags_variant", "container>=2", "escape_needed", "non_integer_number", "non_finite_number", "int_range_integer", "control_char", "non_bmp", "depth>=17"]
 
     def budget(self, tier):
         return {"workers": 12, "examples": 3000 if tier == "quick" else 20000}
@@ -177,9 +177,16 @@ class C05(Prop):
         for mode in (LG_BOTH, LG_DEFAULT):
             printing.with_hooks(lib, mode)
             try:
-                tree = printing.build_tree(lib, jv)
-                texts = printing.print_all(lib, tree, stats)
-                lib.cJSON_Delete(tree)
+                # the same value, plain or with ownership flags (constant keys, string references, reference / former-member root)
+                variant = printing.ROOT_VARIANTS[case["rseed"] % len(printing.ROOT_VARIANTS)] if case["rseed"] % 2 else "plain"
+                import random
+                rv = printing.RootVariant(lib, jv, variant, random.Random(case["rseed"]))
+                if variant != "plain":
+                    stats.cls("ownership_flags_variant")
+                try:
+                    texts = printing.print_all(lib, rv.root, stats)
+                finally:
+                    rv.close()
                 texts_by_mode.append(texts)
                 if lib.ledger_live() != 0:
                     raise Violation("blocks left allocated after printing and deleting", key="leak")
